@@ -48,4 +48,7 @@ def main():
 
 
 if __name__ == "__main__":
-    sys.exit(main())
+    rc = main()
+    sys.stdout.flush()
+    sys.stderr.flush()
+    os._exit(rc)        # worker threads stuck in non-terminating library code must not keep the check alive
